@@ -361,7 +361,6 @@ impl<'a> JSONValidator<'a> {
 
         // Retrieve the value from key unless optional/zero or more, in which
         // case advance to next group entry
-        #[cfg(feature = "ast-span")]
         if let Some(v) = o.get(t.as_ref()).filter(|_| {
           !self
             .validated_keys
@@ -387,38 +386,6 @@ impl<'a> JSONValidator<'a> {
           return Ok(());
         } else if let Some(ControlOperator::NE) | Some(ControlOperator::DEFAULT) = &self.state.ctrl
         {
-          return Ok(());
-        } else {
-          self.add_error(format!("object missing key: {}", t))
-        }
-
-        // Retrieve the value from key unless optional/zero or more, in which
-        // case advance to next group entry
-        #[cfg(not(feature = "ast-span"))]
-        if let Some(v) = o.get(t.as_ref()).filter(|_| {
-          !self
-            .validated_keys
-            .as_ref()
-            .is_some_and(|keys| keys.iter().any(|key| key == t.as_ref()))
-        }) {
-          self
-            .validated_keys
-            .get_or_insert_with(Vec::new)
-            .push(t.to_string());
-          self.object_value = Some(v.clone());
-          self.state.data_location.push_str(&format!("/{}", t));
-
-          return Ok(());
-        } else if let Some(Occur::Optional {})
-        | Some(Occur::ZeroOrMore {})
-        | Some(Occur::Exact {
-          lower: None | Some(0),
-          ..
-        }) = &self.state.occurrence.take()
-        {
-          self.state.advance_to_next_entry = true;
-          return Ok(());
-        } else if let Some(Token::NE) | Some(Token::DEFAULT) = &self.state.ctrl {
           return Ok(());
         } else {
           self.add_error(format!("object missing key: {}", t))
